@@ -2,6 +2,7 @@ package main
 
 import (
 	"fmt"
+	"hash/fnv"
 	"regexp"
 	"sort"
 	"strings"
@@ -138,6 +139,38 @@ func generated(rng *lib.Rng) []Prog {
 	add("hash-compare-opposite", `(def h1 (hash a:1 b:9 c:3 d:8 e:5 f:6)) (def h2 (hash a:9 b:1 c:8 d:3 e:6 f:5)) [(< h1 h2) (> h1 h2) (<= h1 h2) (>= h1 h2) (== h1 h2) (!= h1 h2) (< h2 h1) (== [h1] [h2])]`, "compare")
 	add("hash-compare-incomparable", `(def h1 (hash a:1 b:"s" c:3 d:[1] e:5)) (def h2 (hash a:2 b:7 c:4 d:"t" e:6)) (== h1 h2)`, "compare", "error-candidates")
 	add("field-uncomparable-keys", `(def f (field [car 1] 2)) (def g (field [car 1] 2 [cdr 2] 3 [(quote q) 7] 4 a:5)) [(str f) (str g)]`, "site:builders.go:valueStoredUnder")
+	// distinct keys with the SAME hash code (they share a bucket): a symbol and the integer equal
+	// to its symbol number, a string and the integer equal to its FNV-32 code
+	fnv32 := func(t string) uint32 { h := fnv.New32(); h.Write([]byte(t)); return h.Sum32() }
+	add("hash-same-bucket-symbol-int", `(def h (hash)) (hset h (quote speed) 1) (hset h (symnum (quote speed)) 2) (hset h (quote mass) 3) (hset h (symnum (quote mass)) 4) (hset h (symnum (quote speed)) 5) [(str h) (keys h) (hget h (quote speed)) (hget h (symnum (quote speed))) (len h) (raw2str (json h))] `, "hash-collision", "stdout")
+	add("hash-same-bucket-string-int", fmt.Sprintf("(def h (hash)) (hset h \"abc\" 1) (hset h %d 2) (hset h \"zygo\" 3) (hset h %d 4) (hdel h \"abc\") (hset h \"abc\" 6) [(str h) (keys h) (hget h \"zygo\") (hget h %d) (len h)]", fnv32("abc"), fnv32("zygo"), fnv32("zygo")), "hash-collision", "stdout")
+	add("hash-same-bucket-literal", fmt.Sprintf("(def n (symnum (quote qcol))) (def h (hash qcol:1 \"abc\" 2)) (hset h n 3) (hset h %d 4) (println (str h)) (println (keys h)) (hdel h n) (str h)", fnv32("abc")), "hash-collision", "stdout")
+	{
+		lines := []string{"(def h (hash))"}
+		for _, nm := range []string{"car", "cdr", "append", "speed", "zz9", "a", "hash", "error", "snoopy"} {
+			lines = append(lines, fmt.Sprintf("(hset h (quote %s) 1)", nm), fmt.Sprintf("(hset h (symnum (quote %s)) 2)", nm), fmt.Sprintf("(hset h \"%s\" 3)", nm), fmt.Sprintf("(hset h %d 4)", fnv32(nm)),
+				fmt.Sprintf("[(hget h (quote %s)) (hget h (symnum (quote %s))) (hget h \"%s\") (hget h %d)]", nm, nm, nm, fnv32(nm)))
+		}
+		lines = append(lines, "(str h)", "(keys h)", "(len h)", "(hdel h (symnum (quote car)))", "(hdel h (quote cdr))", "(str h)", "(raw2str (json h))", "(str (unmsgpack (msgpack (hash a:1 b:2))))")
+		add("bucketsweep", eachLinePrefix+strings.Join(lines, "\n"), "hash-collision", "stdout")
+	}
+	// calendar functions (deterministic: no clock involved)
+	add("time-calendar", `[(str (nextBusinessDay (date "2016/02/26"))) (str (nextBusinessDay (date "2016/12/30"))) (str (date "2016/02/26"))]`, "time", "both-after")
+	add("time-astm-of-date", `[(str (astm (date "2016/02/26"))) (str (astm (date "2020/07/04")))]`, "time", "both-after")
+	add("time-printf", `(printf "%v|%v\n" (astm (date "2016/02/26")) (date "2016/03/01")) (println (astm (date "2019/11/11")))`, "time", "stdout", "both-after")
+	add("time-astm-string", `[(str (astm "2016-02-26T12:00:00Z")) (str (astm 1456488000)) (str (dur "1h30m")) (< (astm "2016-02-26T12:00:00Z") (astm "2017-02-26T12:00:00Z"))]`, "time", "both-after")
+	// JSON/msgpack decoding of edge and broken texts, with ordinary decodes before and after (a
+	// second interpreter of the process must decode the ordinary texts the same way)
+	{
+		ord := []string{"(str (unjson (raw `[5, 0, -3, 7.5, 123456789012]`)))", "(str (unjson (raw `{\"a\":5,\"b\":[1,2],\"c\":9007199254740993}`)))", "(str (unmsgpack (msgpack (hash a:5 b:[1 2 3] c:-7))))", "(type? (aget (unjson (raw `[5]`)) 0))"}
+		edge := []string{"[18446744073709551615, 5, -3 ", "[18446744073709551615]", "[18446744073709551616]", "[9223372036854775807, 9223372036854775808]", "[9223372036854775808, 1", "{\"a\":18446744073709551615,", "[-9223372036854775809]", "[1e400]", "[1e400, 5", "[1E-400]", "[0.1e", "[01]", "[+1]", "[1.]", "[.5]", "[NaN]", "[Infinity, 1", "{\"a\":", "{\"a\"}", "{a:1}", "[1,]", "[,1]", "[1 2]", "\"abc", "\"\\u12\"", "\"\\ud800\"", "tru", "nul", "[true, fals", "", " ", "[[[[[[[[[[1]]]]]]]]]", "[[[[[[[[[[1]]]]]]]]]]", "{\"zKeyOrder\":[\"a\"],\"a\":1,\"Atype\":\"hash\"}", "{\"zKeyOrder\":5,\"a\":1}", "{\"Atype\":5,\"a\":1}", "{\"Atype\":\"nosuchtype\",\"a\":1}", "{\"a\":1,\"a\":2}", "[18446744073709551615, {\"a\":"}
+		lines := append([]string{}, ord...)
+		for _, e := range edge {
+			lines = append(lines, "(str (unjson (raw `"+e+"`)))", "(str (unmsgpack (raw `"+e+"`)))")
+		}
+		lines = append(lines, ord...)
+		add("decodesweep", eachLinePrefix+strings.Join(lines, "\n"), "decode-sweep", "error-candidates", "both-after")
+	}
 	add("record-unknown-field", `(snoopy nosuchfield:1 alsonot:2 third:3)`, "error-candidates")
 	add("record-unknown-fields-togo", `(def s (snoopy cry:"a")) (hset s (quote zzz) 1) (hset s (quote yyy) 2) (hset s (quote xxx) 3) (togo s)`, "site:jsonmsgp.go:SexpToGoStructs", "error-candidates")
 	add("record-no-method", `(_method (snoopy) NoSuchMethod:)`, "error-candidates", "both-after")
